@@ -266,3 +266,41 @@ pub fn seeded_inplace(out: &mut Out, rng: &mut Rng) {
         { let (lbpk, lbsk) = sodium::box_seed_keypair(&seed); differ(out, "box.seed_keypair", Outcome::Ok([bpk.to_vec(), bsk.to_vec()].concat()), &[lbpk.to_vec(), lbsk.to_vec()].concat(), rp.clone()); }
     }
 }
+
+
+/// C13: Ed25519 -> X25519 conversion on public keys whose encodings sit next to the canonical-encoding boundary
+/// (top bits all set, low byte >= 0xed, ...): found by scanning seeded key pairs; and derive_keypair under an Argon2i configuration
+pub fn conversion_edges(out: &mut Out, rng: &mut Rng, thorough: bool) {
+    use dryoc::classic::crypto_sign_ed25519::crypto_sign_ed25519_pk_to_curve25519;
+    let n = if thorough { 400_000 } else { 60_000 };
+    let mut seed: [u8; 32] = rng.arr();
+    let (mut hi, mut lo, mut both) = (0u32, 0u32, 0u32);
+    for k in 0..n {
+        seed[..4].copy_from_slice(&(k as u32).to_le_bytes());
+        let (pk, _sk) = sodium::sign_seed_keypair(&seed);
+        let top = (pk[31] & 0x7f) == 0x7f; let low = pk[0] >= 0xed;
+        let want = (top && hi < 40) || (low && lo < 40) || (top && low) || (pk[31] & 0x7f) == 0 && k % 50 == 0;
+        if !want { continue; }
+        if top { hi += 1; } if low { lo += 1; } if top && low { both += 1; }
+        out.search_evaluations += 1;
+        let d = guard(|| { let mut x = [0u8; 32]; crypto_sign_ed25519_pk_to_curve25519(&mut x, &pk).map(|_| x) });
+        if d.clone().ok() != sodium::sign_pk_to_curve(&pk) {
+            out.hit("sign.pk_to_curve25519.differs-from-libsodium.boundary-encoding", format!("public key {} ({})", hx(&pk), d.class()), json!({"op":"sign.pk_to_curve25519","pk":hx(&pk),"seed":hx(&seed)}));
+        }
+    }
+    out.notes.insert("pk_to_curve25519_boundary_keys".into(), json!({"top_bits_set":hi,"low_byte_ge_ed":lo,"both":both,"scanned":n}));
+    // derive_keypair with the configuration of a parsed Argon2i string
+    for alg in [1i32, 2] {
+        let pw = rng.bytes(7); let salt: [u8; 16] = rng.arr();
+        if let Some(st) = sodium::pwhash_str_alg(b"x", 3, 8192, alg) {
+            out.search_evaluations += 1;
+            let cfg = match guard(|| dryoc::pwhash::VecPwHash::from_string(&st)) { Outcome::Ok(p) => p.into_parts().2, o => { out.hit("obj.pwhash.from_string.rejects-libsodium-string", o.class().to_string(), json!({"string":st})); continue; } };
+            let kp = guard(|| dryoc::pwhash::VecPwHash::derive_keypair::<_, StackByteArray<32>, StackByteArray<32>>(&pw, salt.to_vec(), cfg.clone()));
+            let want = sodium::pwhash(32, &pw, &salt, 3, 8192, alg);
+            match (kp, want) {
+                (Outcome::Ok(kp), Some(w)) => { if kp.secret_key.as_array()[..] != w[..] { out.hit("pwhash.derive_keypair.ignores-the-configured-algorithm", format!("algorithm {} (configuration parsed from {})", alg, st), json!({"op":"obj.PwHash.derive_keypair","pw":hx(&pw),"salt":hx(&salt),"alg":alg})); } }
+                (o, _) => out.hit("pwhash.derive_keypair.fails", format!("alg {} ({})", alg, o.class()), json!({"alg":alg})),
+            }
+        }
+    }
+}
